@@ -6,6 +6,8 @@ from rules import shared
 from rules.C05 import short_chain
 from rulelib import walk, nonpanic, path_sig, event_strs, where
 
+import witness
+
 EXPLANATION = ("Structural necessary conditions of exactly-once delivery: stream / datagram handles are move-only (no Clone/Copy impl); "
                "the documented cancel-safe accept futures own no dequeued value at any suspension point and await only cancel-safe "
                "leaf futures (coroutine layout); the worker pulls an item from quinn only after reserving a slot on every queue "
@@ -33,6 +35,8 @@ def run(ctx):
                (i.get("self_j", {}).get("did") == ty)]
         ctx.check("C08-R1", ty.split("::")[-1] + " not Clone/Copy", not bad,
                   "%s implements %s: a delivered handle could be duplicated" % (ty, [b.get("trait") for b in bad]), bad[0]["at"]["sp"] if bad else "?")
+
+    witness.run(ctx, "C08-R1", {"C08"})
 
     ctx.rule("C08-R2", "cancel safety: accept/receive futures own no dequeued value at any suspension and await only cancel-safe futures")
     n = 0
